@@ -44,7 +44,7 @@ pub struct TableDrv<E: Elem> {
 fn rm(model: &mut Vec<(u32, u16)>, id: u32, gen: u16) -> bool {
     match model.iter().position(|e| *e == (id, gen)) {
         Some(p) => {
-            model.swap_remove(p);
+            model.remove(p);
             true
         }
         None => false,
@@ -109,7 +109,7 @@ impl<E: Elem> TableDrv<E> {
     fn remove_model(&mut self, id: u32, gen: u16) -> bool {
         match self.model.iter().position(|e| *e == (id, gen)) {
             Some(p) => {
-                self.model.swap_remove(p);
+                self.model.remove(p);
                 true
             }
             None => false,
@@ -131,6 +131,10 @@ impl<E: Elem> TableDrv<E> {
         if self.model.len() >= self.max_live && matches!(op, 0 | 5) {
             op = 4;
         }
+        if self.order_free && matches!(op, 0 | 14) {
+            // duplicates make "which instance was found" depend on the layout; transcripts must not
+            op = 5;
+        }
         self.steps += 1;
         ctx.evaluations += 1;
         let r = {
@@ -142,6 +146,9 @@ impl<E: Elem> TableDrv<E> {
             Ok(obs) => {
                 self.tr.u64(op as u64);
                 self.tr.u64(obs);
+                if ctx.only.is_some() && ctx.xarg("trace").is_some() {
+                    println!("TR {} {} obs={} digest={:x}", self.steps, TOP_NAMES[op], obs, self.tr.0);
+                }
             }
             Err(p) => {
                 if is_injected(&p) {
@@ -463,7 +470,7 @@ impl<E: Elem> TableDrv<E> {
                     for s in &seen {
                         match m.iter().position(|e| e == s) {
                             Some(p) => {
-                                m.swap_remove(p);
+                                m.remove(p);
                             }
                             None => crate::viol!("table drain yielded {:?} twice or unknown", s),
                         }
@@ -484,6 +491,7 @@ impl<E: Elem> TableDrv<E> {
                 let n = match rng.below(3) {
                     0 => rng.below(8) as usize,
                     1 => rng.below(64) as usize,
+                    _ if self.order_free => (self.t.len() + rng.below(4) as usize).saturating_sub(2),
                     _ => (self.t.capacity() + rng.below(4) as usize).saturating_sub(2),
                 };
                 let len = self.t.len();
